@@ -37,7 +37,7 @@ def run(ctx):
     rng = ctx.rng
     diffs = C.unit_correspondence(ctx, kvh, C.gen_ops("gen_io.py", ctx.seed, 1 if ctx.quick else 8, prefixes=('write_read', 'read')), "write+read")
     sc = C.scratch()
-    alns = [alngen.rand_alignment(rng, not ctx.quick) for _ in range(60 if ctx.quick else 600)]
+    alns = [alngen.rand_alignment(rng, not ctx.quick) for _ in range(60 if ctx.quick else 600)] + [alngen.long_row_alignment(rng) for _ in range(6 if ctx.quick else 60)]
     lines, meta = [], []
     for k, (kind, aln) in enumerate(alns):
         for f in FMTS:
